@@ -8,11 +8,11 @@ package props
 // byte k, serialize must put bit i of F at bit p of byte k.
 
 import (
-	"os"
 	"fmt"
 	"go/constant"
 	"go/token"
 	"go/types"
+	"os"
 	"sort"
 	"strings"
 
